@@ -104,7 +104,7 @@ fn totality_check(ty: &'static str) -> impl Fn(&[u64], &mut Tally) -> Result<(),
 // ---------------------------------------------------------------------------------------------
 // Engine 2: documented panics, exactly. Slice functions over all lengths 0..N+4 (window into a
 // canary-filled buffer, and exact-size heap allocations for the sanitizer build); index functions
-// over 0..N+2 and usize::MAX.
+// over 0..N+2, usize::MAX, 2^32 and the indices that a wrapping stride multiplication maps back into range.
 
 pub trait Fbits: Copy + PartialEq + std::fmt::Debug + 'static {
     fn fb(w: u64) -> Self;
@@ -288,6 +288,26 @@ macro_rules! slice_sub {
     }};
 }
 
+/// Out-of-range indices that come back into range when an implementation multiplies them by an element or byte stride in
+/// wrapping arithmetic (release profile): ceil(j * 2^64 / m) + k for the strides m a column, row or lane offset can carry.
+#[allow(dead_code)]
+fn wrap_indices() -> Vec<u64> {
+    let mut v: Vec<u64> = vec![];
+    for m in [2u128, 3, 4, 6, 8, 9, 12, 16, 24, 32, 36, 48, 64] {
+        for j in 1..m {
+            let base = (j << 64).div_ceil(m);
+            for k in 0..4u128 {
+                if base + k < (1u128 << 64) {
+                    v.push((base + k) as u64);
+                }
+            }
+        }
+    }
+    v.sort();
+    v.dedup();
+    v
+}
+
 /// words: [idx, v0..v15]; every index 0..N+2 and usize::MAX: valid ones return the lane, invalid ones panic.
 macro_rules! index_vec_sub {
     ($out:expr, $V:ident, $T:ident, $N:expr) => {{
@@ -319,8 +339,8 @@ macro_rules! index_vec_sub {
         $out.push(SubCheck::new(format!("indices/{}/{}", stringify!($V), VARIANT), 1, move |env: &mut Env| {
             let sp: Vec<u64> = if <$T as Fbits>::W == 32 { lattice::f32_specials().iter().map(|x| *x as u64).collect() } else { lattice::f64_specials() };
             let mut n = 0;
-            for idx in (0..$N + 3).map(|i| i as u64).chain([usize::MAX as u64, 1u64 << 32]) {
-                for k in 0..16usize {
+            for (idx, reps) in (0..$N + 3).map(|i| (i as u64, 16usize)).chain([(usize::MAX as u64, 16), (1u64 << 32, 16)]).chain(wrap_indices().into_iter().map(|i| (i, 1))) {
+                for k in 0..reps {
                     let mut w = vec![idx];
                     for i in 0..$N + 1 { w.push(sp[(k * 13 + i * 5) % sp.len()]); }
                     n += 1;
@@ -363,8 +383,8 @@ macro_rules! index_mat_sub {
         $out.push(SubCheck::new(format!("indices/{}/{}", stringify!($M), VARIANT), 1, move |env: &mut Env| {
             let sp: Vec<u64> = if <$T as Fbits>::W == 32 { lattice::f32_specials().iter().map(|x| *x as u64).collect() } else { lattice::f64_specials() };
             let mut n = 0;
-            for idx in (0..$D + 3).map(|i| i as u64).chain([usize::MAX as u64, 1u64 << 32]) {
-                for k in 0..16usize {
+            for (idx, reps) in (0..$D + 3).map(|i| (i as u64, 16usize)).chain([(usize::MAX as u64, 16), (1u64 << 32, 16)]).chain(wrap_indices().into_iter().map(|i| (i, 1))) {
+                for k in 0..reps {
                     let mut w = vec![idx];
                     for i in 0..16 { w.push(sp[(k * 13 + i * 5) % sp.len()] ^ ((i as u64) << 2)); }
                     n += 1;
@@ -446,7 +466,7 @@ macro_rules! mask_sub {
         };
         $out.push(SubCheck::new(format!("indices/{}/{}", stringify!($B), VARIANT), 1, move |env: &mut Env| {
             let mut n = 0;
-            for idx in (0..$N + 3).map(|i| i as u64).chain([usize::MAX as u64, 1u64 << 32]) {
+            for idx in (0..$N + 3).map(|i| i as u64).chain([usize::MAX as u64, 1u64 << 32]).chain(wrap_indices()) {
                 for bits in 0..(1u64 << $N) { for nv in 0..2u64 {
                     n += 1;
                     if !env.direct(&[idx, bits, nv], &chk) { return; }
